@@ -81,7 +81,7 @@ def acquisitions(fn):
                         work.append(t)
                 elif kind.startswith("arg") and o.get("k") == "move":
                     cc = Call(fn, site.bb, payload)
-                    if UNWRAP_RX.search(cc.callee or "") or cc.matches(r"dashmap::mapref::entry::Entry::<'a, K, V>::(or_default|or_insert|or_insert_with)$"):
+                    if UNWRAP_RX.search(cc.callee or "") or cc.matches(r"dashmap::(mapref::entry::)?Entry::<'a, K, V(, S)?>::(or_default|or_insert|or_insert_with|or_try_insert_with|insert|insert_entry)$|dashmap::(mapref::entry::)?OccupiedEntry::<'a, K, V(, S)?>::into_ref$|dashmap::(mapref::entry::)?VacantEntry::<'a, K, V(, S)?>::(insert|insert_entry)$"):
                         t = payload["dest"][0]
                         if t not in guards:
                             guards.add(t)
